@@ -71,10 +71,13 @@ var (
 // ---- the child side ----
 
 func verifC11ChildMain() {
-	if len(os.Args) < 2 || (os.Args[1] != verifC11ChildArg && os.Args[1] != verifC11HolderArg && os.Args[1] != verifC11StdinArg) {
+	if len(os.Args) < 2 || (os.Args[1] != verifC11ChildArg && os.Args[1] != verifC11HolderArg && os.Args[1] != verifC11StdinArg && os.Args[1] != verifC11LiveArg) {
 		return
 	}
 	time.AfterFunc(verifC11ChildLife, func() { os.Exit(99) })
+	if os.Args[1] == verifC11LiveArg {
+		verifC11LiveChild()
+	}
 	if os.Args[1] == verifC11StdinArg {
 		verifC11StdinChild()
 	}
@@ -278,6 +281,9 @@ type verifC11PScript struct {
 
 func verifC11ProcRun(args []vsx) vsx {
 	bad := vL(vS("bad-case"))
+	if len(args) == 3 && args[0].k == 'i' && args[0].i == 6 && args[1].k == 'i' && args[1].i == 1 && args[2].k == 'l' {
+		return verifC11LiveRun(args[2].l)
+	}
 	if len(args) != 3 || args[0].k != 'i' || args[1].k != 'i' || args[2].k != 'l' || len(args[2].l) != 10 {
 		return bad
 	}
